@@ -130,7 +130,7 @@ func (w *world) oracle(hp *hpeer, kind string, e opEnv, m protocol.Message, msgs
 					viol("piece-payload:spans-pieces", fmt.Sprintf("Piece %d %d len %d", x.Index, x.Begin, len(x.Data)))
 				case w.pstate[off/uint64(w.ps)] != 2:
 					viol("piece-payload:unverified", fmt.Sprintf("Piece %d %d len %d served from piece %d which is not verified/held (state %d)", x.Index, x.Begin, len(x.Data), off/uint64(w.ps), w.pstate[off/uint64(w.ps)]))
-				case !bytes.Equal(x.Data, w.content[off:end]):
+				case !bytes.Equal(x.Data, w.contentRange(int64(off), int64(end))):
 					viol("piece-payload:mismatch", fmt.Sprintf("Piece %d %d len %d differs from the reference content", x.Index, x.Begin, len(x.Data)))
 				}
 			}
